@@ -111,8 +111,7 @@ def tlc(spec_dir, module, cfg, workdir, workers=None, timeout=900, args=None, ja
         shutil.copy(src, os.path.join(sd, dst))
     md = os.path.join(workdir, "md.%d" % (int(time.time() * 1000) % 10**9))
     cmd = ["java", "-XX:+UseParallelGC"]
-    if heap:
-        cmd.append("-Xmx" + heap)
+    cmd.append("-Xmx" + (heap or os.environ.get("VERIF_TLC_HEAP", "6g")))
     cmd += ["-Xss64m"]
     if java_opts:
         cmd += java_opts
